@@ -91,6 +91,31 @@ claim("C33", "e4_hydroprod",
   E4NOTE,
   "DESIGN.md §5 C33, §13")
 
+E5NOTE = "Trusted: the repository simulator's own model of what is legal (fail-stop network, independent hook decisions), my DynDriver / byte expansion, the reference models. Decision bytes are the replay payload; starved or continue_if-rejected instances are discarded and counted. Sampled, not exhaustive (the repo's own exhaustive mode is only the *subject* of C37)."
+claim("C36", "e5_hydrosim",
+  "deterministic simulation: (a) hook level: the repository simulator's StreamHook/KeyedStreamHook/SingletonHook/KeyedSingletonHook/Passthrough hooks driven by my own seeded DynDriver with arrivals interleaved with decisions; (b) end to end: compiled simulator dylibs run via CompiledSim::fuzz_repro(bytes) with bytes expanded from the run seed; oracles: prefix/subset per key, no loss/dup, snapshot versions monotone, force_nontrivial truthful, every scheduled tick releases something new",
+  "Seeded exploration of simulator decision streams at hook level (millions of runs) and end to end through the compiled dylib; every failing decision stream is a replay file.",
+  E5NOTE, "DESIGN.md §5 C36, §13")
+claim("C37", "e5_hydrosim",
+  "deterministic simulation / sampled membership: the repository's exhaustive mode (hook level through bolero's exhaustive driver, end to end CompiledSim::exhaustive) is run on small configurations to collect the reached outcome set S; seeded draws of legal outcomes from an independent reference description of the decision space must all be members of S",
+  "Seeded sampling of reference schedules against the enumerated outcome set of 6 small end-to-end programs and small hook configurations; a sampled legal outcome missing from S is a violation.",
+  E5NOTE + " NoOrder batches compared as sets. Coverage claim is by sampling the reference space, not by proving S complete.",
+  "DESIGN.md §5 C37, §13")
+claim("C38", "e5_hydrosim",
+  "deterministic simulation: the same seeded decision bytes are run through CompiledSim::fuzz_repro twice in one process and again in a fresh process (and under a different hash seed via the LD_PRELOAD getrandom shim when present); decision logs, outputs and verdicts must be byte-identical",
+  "Seeded exploration of decision inputs for the corpus sim programs, each replayed in-process and cross-process.",
+  E5NOTE, "DESIGN.md §5 C38, §13")
+claim("C31", "e5_hydrosim",
+  "deterministic simulation: corpus sliced! programs (batch on streams/keyed streams, snapshot of count / keyed singleton, slice state) run in the repository simulator under seeded decision bytes; oracles: observed batches partition the input in order (per key / multiset for NoOrder), snapshot versions never go back, slice-local state carries to the next slice",
+  "Seeded exploration of simulator schedules of slice programs (production-partition leg C31p exists in e4_hydroprod as an unregistered extra scenario group).",
+  E5NOTE + " In the simulator hooks of one slice are independent decisions, so only same-tick membership and version monotonicity are demanded there.",
+  "DESIGN.md §5 C31, §13")
+claim("C40", "e5_hydrosim",
+  "deterministic simulation: hydro_test::cluster::raft (3 members, TCP fail_stop) in the repository simulator under seeded decision bytes and a seeded workload of election-timer interrupts, client requests and heartbeats, with and without quiesce barriers; safety oracle after every observation: pairwise prefix consistency of committed logs, committed positions contiguous and never rewritten",
+  "Seeded exploration of fail-stop network schedules and timer/request races for the shipped Raft example; safety only.",
+  E5NOTE + " Paxos is NOT covered: the shipped paxos examples use wall-clock tokio intervals that the repository simulator cannot run, so there is no seam (stated limitation; the property is claimed for its Raft half only).",
+  "DESIGN.md §5 C40, §13")
+
 NOT_BUILT = {}  # pid -> reason while its check is not built yet
 
 ALL = ["C%02d" % i for i in range(1, 43)]
@@ -131,6 +156,7 @@ def main():
       "e1_pull": "poll-level deterministic simulator for dfir_pipes pull combinators and the symmetric hash join",
       "e2_wakesim": "thread-interleaving simulator (shuttle) for the dataflow runner's wake-up protocol, with guarded yield hooks in dfir_rs",
       "e4_hydroprod": "production-compiled (embedded back end) Hydro flows under simulated tick partitions, location schedules and a simulated network",
+      "e5_hydrosim": "the repository's own deterministic simulator driven by my seeded decision stream: hook-level DynDriver and end-to-end fuzz_repro(bytes) over compiled dylibs",
       "e1_sink": "poll-level deterministic simulator for sinktools adaptors and MergeSource",
       "e1_push": "poll-level deterministic simulator for dfir_pipes push combinators",
       "e1_pollsim": "poll-level deterministic simulator: scripted Pending/Ready/wake schedules around real dfir_pipes/sinktools/MergeSource/unsync-mpsc code",
